@@ -68,7 +68,7 @@ def propagate_fft(wavefront, pixelscale, shape=None, oversample=2,
                           ptype = ptype_out)
     
     if scratch is not None:
-        if not all(np.asarray(scratch.shape) > fft_shape):
+        if not all(np.asarray(scratch.shape) >= fft_shape):
              raise ValueError(f'scratch must have shape greater than or '
                               f'equal to {tuple(fft_shape)}')
 
